@@ -2943,6 +2943,128 @@ LIN_BRANCHES = ['lin/{}/{}'.format(t, b) for t in ['pwinner', 'pwsum']
                 for b in ['grid', 'float', 'components=one', 'components=several']]
 
 
+# ---------------------------------------------------------------------------
+# ucomp stream (round 6): OperatorComp(ufunc operator, random exact tree) — Model/DerivUfuncComp.lean
+# (tree at Rat, ufunc and the GENERATED derivative table at Float); oracle = central differences
+
+UCOMP_SPACES = [(2, 2), (3, 2), (2, 3), (3, 3), ((2, 1), 2), ((2, 2), 3), (('c', 2), 2), (1, 1), (2, 1)]
+
+
+def _ucomp_domain_ok(name, inner):
+    if not inner.size or not np.all(np.isfinite(inner)) or np.max(np.abs(inner)) > 12:
+        return False
+    if name in ('sqrt', 'log'):
+        return bool(np.all(inner > 0))
+    if name == 'reciprocal':
+        return bool(np.all(inner != 0))
+    return True
+
+
+def gen_ucomp_case(rng):
+    for _ in range(300):
+        name = rng.choice(TABLE_FNS)
+        S, T = rng.choice(UCOMP_SPACES)
+        depth = rng.choice([0, 1, 1, 2, 2, 3])
+        spec = gen(rng, S, T, depth) if rng.random() < 0.35 else gen_nonlinear(rng, S, T, depth)
+        x = rints(rng, dim(S), -2, 2)
+        d = rints(rng, dim(S), -2, 2)
+        try:
+            bnd(spec, max([abs(v) for v in x] + [1]))
+            bnd(spec, max([abs(v) for v in d] + [1]))
+            dbnd(spec, max([abs(v) for v in x] + [1]), max([abs(v) for v in d] + [1]))
+            del BUILT[:]
+            inner = flat(build(spec)(elem(S, x)))
+            del BUILT[:]
+        except Bound:
+            continue
+        except Exception:  # noqa  (left to run_ucomp_case to report)
+            inner = np.zeros(0)
+        if not _ucomp_domain_ok(name, inner):
+            continue
+        return {'kind': 'ucomp', 'name': name, 'spec': spec, 'x': x, 'd': d}
+    raise core.Infra('could not generate a tree into the domain of a ufunc')
+
+
+def run_ucomp_case(c):
+    import odl
+    import odl.ufunc_ops as uo
+    spec, name = c['spec'], c['name']
+    line = 'ucomp name={} u={} x={} d={}'.format(name, '|'.join(tokens(spec)), fl(c['x']), fl(c['d']))
+    info = {'inner_linear': None, 'resolvable': True}
+    del BUILT[:]
+    try:
+        tree = build(spec)
+        op = odl.OperatorComp(getattr(uo, name)(tree.range), tree)
+    except Exception as e:  # noqa
+        del BUILT[:]
+        return line, 'err:construct {}: {}'.format(type(e).__name__, str(e)[:160]), \
+            ['constructor raised {}: {}'.format(type(e).__name__, str(e)[:200])], info
+    problems = flag_problems_of_built()
+    S = spec['dom']
+    x, d = elem(S, c['x']), elem(S, c['d'])
+    info['inner_linear'] = bool(tree.is_linear)
+    try:
+        with np.errstate(all='ignore'):
+            val = flat(op(x))
+            c12 = (flat(op(x + 2.0 ** -12 * d)) - flat(op(x - 2.0 ** -12 * d))) * 2.0 ** 11
+            c14 = (flat(op(x + 2.0 ** -14 * d)) - flat(op(x - 2.0 ** -14 * d))) * 2.0 ** 13
+        info['resolvable'] = bool(
+            np.all(np.isfinite(val)) and np.all(np.isfinite(c12)) and np.all(np.isfinite(c14)) and not np.any(
+                np.abs(c12 - c14) > 1e-5 * np.maximum(np.abs(c12), np.abs(c14)) + 1e-9 * np.abs(val)))
+        impl = {'dom': space_dim(op.domain), 'ran': space_dim(op.range), 'val': _ftoks(val.tolist())}
+    except Exception as e:  # noqa
+        return line, 'err:call {}: {}'.format(type(e).__name__, str(e)[:160]), \
+            problems + ['op(x) raised {}: {}'.format(type(e).__name__, str(e)[:160])], info
+    if info['resolvable']:
+        with np.errstate(all='ignore'):
+            pr, _, _ = oracle_on(op, x, d, exact_linear=False, history=False)
+        problems = problems + list(pr)
+    try:
+        with np.errstate(all='ignore'):
+            impl['dval'] = _ftoks(flat(op.derivative(x)(d)).tolist())
+    except Exception as e:  # noqa
+        return line, 'err:deriv {}: {}'.format(type(e).__name__, str(e)[:160]), \
+            problems + ['derivative(x)(d) raised {}: {}'.format(type(e).__name__, str(e)[:160])], info
+    return line, impl, problems, info
+
+
+def ucomp_stream(ctx, n_cases):
+    rng = ctx.rng
+    batch, lines = [], []
+    for _ in range(n_cases):
+        c = gen_ucomp_case(rng)
+        line, impl, problems, info = run_ucomp_case(c)
+        batch.append((c, impl, problems, info))
+        lines.append(line)
+    outs = core.run_driver('C06', lines)
+    for (c, impl, problems, info), ans in zip(batch, outs):
+        ks = kinds(c['spec'])
+        nontrivial = not isinstance(impl, str) and any(tok not in ('0', 'nan') for tok in impl.get('dval', '0').split(','))
+        ctx.case(('ucomp', c['name'], ks[0], tuple(sorted(set(ks)))) if nontrivial else None,
+                 sample={'ufunc': c['name'], 'tree': '|'.join(tokens(c['spec']))[:200], 'x': c['x'], 'd': c['d'],
+                         'model_answer': ans[:160]} if nontrivial and len(ks) <= 3 and not info['inner_linear'] else None)
+        ctx.hit('ucomp/' + c['name'])
+        if info['inner_linear'] is not None:
+            ctx.hit('ucomp/inner-{}'.format('linear' if info['inner_linear'] else 'nonlinear'))
+        if not info['resolvable']:
+            ctx.hit('ucomp/oracle-skipped/not-resolvable-by-the-stencil')
+        if problems:
+            ctx.violation('ucomp OperatorComp({}, tree top={})'.format(c['name'], ks[0]), '; '.join(problems)[:700], c)
+        if isinstance(impl, str) or not ans.startswith('ok '):
+            ctx.disagree(c, impl if isinstance(impl, str) else 'ok', ans[:300], stream='ucomp')
+            continue
+        f = dict(tok.split('=', 1) for tok in ans.split()[1:])
+        for key in ('dom', 'ran', 'val', 'dval'):
+            a, b = str(impl[key]), f.get(key, '?')
+            if a == b or (key in ('val', 'dval') and _close_toks(a, b, 1e-13)):   # libm vs Lean's Float: rel. 1e-13
+                continue
+            ctx.disagree(c, '{}={}'.format(key, a), '{}={}'.format(key, b), stream='ucomp')
+            break
+
+
+UCOMP_BRANCHES = ['ucomp/' + n for n in TABLE_FNS] + ['ucomp/inner-linear', 'ucomp/inner-nonlinear']
+
+
 def regenerate(ctx):
     from extract import ufunc_deriv
     changed = ufunc_deriv.regenerate()
@@ -2993,6 +3115,7 @@ def run(ctx):
     leaf_stream(ctx, 300 if quick else 4000)
     leafcomp_stream(ctx, 200 if quick else 3000)
     lin_stream(ctx, 120 if quick else 1500)
+    ucomp_stream(ctx, 150 if quick else 2000)
     zoo_stream(ctx, 3 if quick else 15)
     try:
         exceptional_points(ctx)
@@ -3004,7 +3127,7 @@ def run(ctx):
         ctx.hit(key, cnt)
     ctx.extra['observations'] = {k: v for k, v in sorted(HIST.items()) if k.startswith('observation/')}
     if not quick:
-        unhit = [b for b in EXPECTED_BRANCHES + LEAF_BRANCHES + LEAFCOMP_BRANCHES + LIN_BRANCHES if b not in ctx.branches]
+        unhit = [b for b in EXPECTED_BRANCHES + LEAF_BRANCHES + LEAFCOMP_BRANCHES + LIN_BRANCHES + UCOMP_BRANCHES if b not in ctx.branches]
         ctx.extra['unhit_model_branches'] = unhit
         if unhit:
             ctx.disagree({'kind': 'coverage'}, 'branches never generated', unhit, stream='coverage')
@@ -3113,6 +3236,11 @@ def replay(ctx, case):
         return '; '.join(problems) if problems else None
     if kind == 'leaf':
         _, _, problems = run_leaf_case(case)
+        return '; '.join(problems) if problems else None
+    if kind == 'ucomp':
+        c = dict(case)
+        c['spec'] = norm_spec(case['spec'])
+        _, _, problems, _ = run_ucomp_case(c)
         return '; '.join(problems) if problems else None
     if kind == 'lin':
         _, _, problems = run_lin_case(case)
